@@ -119,26 +119,17 @@ def run(tier, PROP="C03"):
             trunc += res.get("truncated_at") is not None
             chk.count_case(("e2e", res["id"]), res.get("ncalls", 0) > 0,
                            ec.sample_of(res) if len(chk.coverage["samples"]) < 8 and res.get("ncalls", 0) > 2 else None)
-        # ---- sim-semantics: Model/Sim.lean's SOURCE semantics (what compile_sim/module_sim relate the emitted C to) vs V8 vs the
-        #      real compiled output, and tgt = src, on the modules above and on their core variants (globals folded to constants)
+        # ---- sim-semantics: Model/Sim.lean's SOURCE semantics over the instance state (control flow, locals, globals, loads/stores,
+        #      memory.size/grow, stateful calls) — what compile_sim/module_sim relate the emitted C to — vs V8 vs the real compiled
+        #      output, call by call on ONE threaded instance state, and tgt = src; final globals/pages/memory vs the real instance
         n_sim = cfg["sim"][tier]
-        core_specs = []
+        sim_specs = []
         for (prof, share), g in zip(cfg["profiles"], gen):
-            if prof != "init":
-                core_specs += [dict(s, core_variant=True) for s in g[: max(1, int(n_sim * share))]]
-        core_results = ec.run_jobs(make_jobs(env, core_specs, cfg["per_func"]))
-        for res in core_results:
-            if judge(chk, PROP, res, stats):
-                behav.add(res["id"])
-        sim = ec.sim_tie(env, [r for r in results if "hex" not in r["spec"]] + core_results, driver_ok=pr["driver_ok"])
-        for k in range(sim["cases"]):
-            chk.coverage["evaluations"] += 1
-        if sim["disagreements"]:
-            unexplained = [x for x in sim["disagreements"] if x["module"] not in behav]
-            if unexplained:
-                broken.append({"kind": "correspondence", "name": "sim-semantics",
-                               "msg": "%d disagreement(s) between Model.Sim (src/tgt), V8 and the real output; first: %r" % (len(sim["disagreements"]), unexplained[0]),
-                               "modules": sorted(set(x["module"] for x in unexplained))[:10]})
+            sim_specs += g[: max(1, int(n_sim * share))]
+            if prof == "calls":      # most exported functions of this profile reach an import: also their import-free core variants
+                sim_specs += [dict(s, core_variant=True) for s in g[: max(1, int(n_sim * share) // 2)]]
+        sim, sim_results = ec.sim_step(chk, PROP, env, sim_specs, cfg["per_func"], pr["driver_ok"], broken,
+                                       judge=lambda c, p_, r, st: judge(c, p_, r, st), stats=stats, behav=behav)
         # ---- verdict on the token tie
         if tok_bad:
             unexplained = [s for s in tok_bad if s not in behav]
@@ -151,9 +142,10 @@ def run(tier, PROP="C03"):
             "programs": len(tok_specs), "disagreements_checked": stats["calls_compared"] + nfun,
             "rule": "emit-tokens case = (module seed:profile:index, -m, -p): every function's C token stream, real w2c2 vs Lean model; "
                     "e2e case = module + call script (round-robin over exported functions, %d boundary-heavy argument vectors each) on one "
-                    "instance, real w2c2 -> gcc -O1 vs V8 (sim-semantics case = one such call whose static call graph stays in the core covered by "
-                    "Model/Sim.lean — no globals/memory/imports — on the module or its core variant (globals folded to constants): `E mrun` src vs V8 "
-                    "vs real, tgt = src; `E elem` vs the real instance's table slots): results/trap classes, ordered host-call trace with argument bits and instance "
+                    "instance, real w2c2 -> gcc -O1 vs V8 (sim-semantics case = one call of such a script whose static call graph reaches no import and no "
+                    "bulk-memory/atomic instruction, run by `E mrun` on ONE instance state threaded through the script (ginit/meminit/data from the "
+                    "module): src result = V8 = real, tgt = src incl. globals/pages/memory, final globals/pages/memory windows vs the real "
+                    "instance; scripts end at the first call that leaves the model or traps after writing state; `E elem` vs the real table): results/trap classes, ordered host-call trace with argument bits and instance "
                     "identity, final memory hash, exported globals; non-trivial = module has >= 1 function (tokens) / >= 1 executed call (e2e)"
                     % cfg["per_func"],
             "emit_tokens_functions": nfun, "emit_tokens_modules": len(tok_specs), "emit_tokens_modes": ["plain", "-p", "-m", "-p -m"],
@@ -161,11 +153,7 @@ def run(tier, PROP="C03"):
             "e2e_modules": len([r for r in results if not r.get("error")]), "e2e_calls_compared": stats["calls_compared"],
             "e2e_host_calls_compared": stats["host_calls"], "e2e_scripts_truncated_at_v8_only_trap": trunc,
             "e2e_outcomes": traps,
-            "sim_semantics_cases": sim["cases"], "sim_semantics_outcomes": sim["outcomes"], "sim_semantics_skipped": sim["skipped"],
-            "sim_semantics_calls_considered": sim["calls_considered"], "sim_semantics_disagreements": len(sim["disagreements"]),
-            "sim_semantics_nan_payload_leaks_tolerated": sim.get("nan_payload_leaks_tolerated", 0),
-            "sim_semantics_runs_whose_call_graph_has_callees": sim.get("runs_whose_call_graph_has_callees", 0),
-            "sim_semantics_tables_compared_with_E_elem": sim["tables_compared"], "sim_semantics_core_variant_modules": len(core_specs), "op_histogram": ec.top(ops, 60), "corpus_modules": len(corpus),
+            "sim_semantics_module_specs": len(sim_specs), "op_histogram": ec.top(ops, 60), "corpus_modules": len(corpus),
             "traces_validated_against_impl": stats["calls_compared"],
         })
         chk.notes.append("module-level text (header prototypes, InitTables, exports array) is not rendered by the Lean driver yet: "
@@ -180,9 +168,9 @@ def run(tier, PROP="C03"):
             broken.append({"kind": "leanchecker", "msg": "%s: %s" % (mname, msg)})
     if broken and not chk.violations and not chk.known_hit:
         chk.violation("tie-or-proof-broken",
-                      "a proof obligation or the emit-tokens correspondence no longer checks; e2e (incl. every module whose tokens differ) "
+                      "a proof obligation or a correspondence (emit-tokens / sim-semantics) no longer checks; e2e (incl. every module whose tokens differ) "
                       "found no input on which the compiled output of the real w2c2 disagrees with the specification",
-                      {"broken": broken[:20], "correspondence": "emit-tokens"}, False)
+                      {"broken": broken[:20], "correspondence": sorted(set(b.get("name", b.get("kind")) for b in broken))}, False)
     elif broken:
         chk.notes.append({"broken": broken[:10]})
     return chk.finish()
